@@ -272,8 +272,12 @@ func callSubscriptionsListen(ctx context.Context, conn *jsonrpc2.Connection, met
 	call := conn.Call(ctx, method, params)
 
 	go func() {
-		<-ctx.Done()
-		_ = cancelCall(ctx, conn, call, params)
+		// Await returns when ctx is cancelled, or when the call is over without
+		// that: the peer ended the subscription, or the connection terminated
+		// (then there is nothing left to cancel, and nothing to wait for).
+		if err := call.Await(ctx, nil); err != nil && ctx.Err() != nil {
+			_ = cancelCall(ctx, conn, call, params)
+		}
 	}()
 }
 
